@@ -113,8 +113,13 @@ func (t *tracer) Subscribe() chan ITrace {
 func (t *tracer) SubscribeChannel(channel chan ITrace) chan ITrace {
 	okCh := make(chan struct{}, 1)
 	sub := subscription{channel: channel, ok: okCh}
-	t.subscription <- sub
-	<-okCh
+	select {
+	case t.subscription <- sub:
+		<-okCh
+	case <-t.done:
+		// the tracer has terminated: like every subscriber's channel, this one is closed
+		close(channel)
+	}
 	return channel
 }
 
